@@ -32,6 +32,8 @@ def freeze(v):
         return bytes(v)
     if isinstance(v, (str, int, float, bytes, bool)) or v is None:
         return v
+    if hasattr(v, "__dict__") and not callable(v):
+        return (type(v).__name__, freeze({k: x for k, x in vars(v).items() if not k.startswith("_")}))
     return repr(v)
 
 
@@ -500,7 +502,7 @@ def feature_systems(layout, limit=3):
     systems = {}
     for tag in ("gsub", "gpos"):
         for script, lang, ftag, _lk, _req in layout[tag]["fl"]:
-            systems.setdefault((script, lang), set()).add(ftag)
+            systems.setdefault((str(script), str(lang)), set()).add(str(ftag))
     out = []
     for (script, lang), feats in sorted(systems.items()):
         # a few more for the same script so that both tables' features are on
